@@ -94,6 +94,13 @@ def run_cases(cases, model=True, extra_requests=None, parse_model=True):
                     if algo == "GLR" and len(inp) <= 40:
                         c.nodup_idx.append(k)
                         rq.append(f"glr nodup {partial} {hx(inp)} #{c.matrices[k]}")
+            c.lexdet_idx = []
+            if getattr(c, "want_lexdet", False):
+                # executable hypotheses that discharge `LexDet` (Props/C03Bytes.lean) for this table and input
+                for k, ((algo, partial, inp, _m), mat) in enumerate(zip(c.inputs, c.matrices)):
+                    if algo == "GLR" and partial == "0" and not c.results[k].startswith("skipped") and c.results[k] != "notable":
+                        c.lexdet_idx.append(k)
+                        rq.append(f"glr lexdet {hx(inp)} #{mat}")
             reqs.append(rq)
             req_cases.append(c)
     if model and reqs:
@@ -105,6 +112,7 @@ def run_cases(cases, model=True, extra_requests=None, parse_model=True):
             for k, a in zip(c.model_idx, o[1 + c.n_extra:]):
                 c.model[k] = a
             c.nodup = dict(zip(c.nodup_idx, o[1 + c.n_extra + len(c.model_idx):]))
+            c.lexdet = dict(zip(c.lexdet_idx, o[1 + c.n_extra + len(c.model_idx) + len(c.nodup_idx):]))
     return cases
 
 
